@@ -281,6 +281,8 @@ func runC15(r *Report) {
 	}
 
 	ruleTruncateOnClose(r)
+	ruleWriterErrflow(r)
+	ruleFlushErrflow(r)
 }
 
 // R-truncate-on-close (shared with C04)
